@@ -138,19 +138,7 @@ theorem heap_toDyn_eq (feats : List String) (hp : Heap) (h : RHandle) :
     Heap.toDyn feats hp h =
       if toDynHasArm feats h.variant then .ok (hp, { h with isDyn := true }) else .error (.panic .unimpl) := by
   obtain ⟨v, a, d⟩ := h
-  unfold Heap.toDyn
-  cases ha : toDynHasArm feats v
-  · simp [ha]
-  · have hun := to_dyn_unlisted_never_convert feats ["std", "alloc"]
-    cases v
-    · simp [ha]
-    · simp [ha]
-    · simp [ha]
-    · rw [show toDynHasArm feats .ptrMutex = toDynHasArmIn feats ["std", "alloc"] .ptrMutex from rfl, hun.1] at ha; cases ha
-    · rw [show toDynHasArm feats .arcRwLock = toDynHasArmIn feats ["std", "alloc"] .arcRwLock from rfl, hun.2.1] at ha
-      cases ha
-    · rw [show toDynHasArm feats .arcMutex = toDynHasArmIn feats ["std", "alloc"] .arcMutex from rfl, hun.2.2] at ha
-      cases ha
+  rfl
 
 /-- **`clone` preserves the address.** The clone is a handle of the same variant to the SAME address; no cell is
 allocated; no payload and no `freed` flag changes anywhere; cells at other addresses are untouched; the raw-pointer
